@@ -14,7 +14,7 @@ import re as _re
 import z3
 
 import sx
-from sx import core, rx
+from sx import core, rx, text
 from sx.core import check, assume, choose, SxBool, E
 from .common import Registry, real
 
@@ -305,7 +305,7 @@ class SymPattern:
         self.lang = rx.translate(self.pattern, marks=False)
 
     def match(self, path):
-        if bool(SxBool(z3.InRe(path, self.lang))):
+        if bool(SxBool(z3.InRe(text.term_of(path), self.lang))):
             return SymMatch(self.groups)
         return None
 
@@ -336,13 +336,15 @@ def l163(nroutes):
     # swap the compiled patterns for solver-backed ones
     for meth in router.route_table:
         router.route_table[meth] = [(SymPattern(rp), tok, ep) for rp, tok, ep in router.route_table[meth]]
-    s = z3.String('path')
-    core.declare_input('path', s)
+    # the request path is a text proxy (so that any table lookup or comparison the router performs on it is
+    # decided symbolically too), over the ordinary alphabet
+    path = text.atom('path', nosep='', nonempty=False)
+    s = text.term_of(path)
     e = E()
     e.add(z3.InRe(s, z3.Star(rx.alphabet())))
     mi = choose(3, 'req_method')
     method = ['GET', 'POST', 'PATCH'][mi]
-    got = router.getRoute(method, s)
+    got = router.getRoute(method, path)
     # reference: first registered route of that method whose documented language contains the path
     cands = [r for r in routes if r.method == method]
     if got is None:
@@ -355,7 +357,7 @@ def l163(nroutes):
         for r in cands[:idx]:
             check(SxBool(z3.Not(z3.InRe(s, z_must(parts_of[r.pattern])))), 'an earlier registered matching route would have been chosen')
     # dispatch: 404 exactly when nothing matches
-    req = Req(method, s)
+    req = Req(method, path)
     ws_request_response = ws.request_response
     try:
         ws.request_response = lambda endpt, request: ('ROUTED', endpt)
